@@ -1,0 +1,62 @@
+//go:build verif
+
+package throttler
+
+// Contracts for govc (comment-only; compiled only with -tags verif). Property C36.
+//
+//@ spec import lib/time
+//
+//@ type Throttler
+//@   monitor mu protects delayFactor
+//@   invariant [range] 0 <= self.delayFactor && self.delayFactor < len(self.delays)
+//@   invariant [cfg] len(self.delays) >= 1 && self.releaseRate >= 1
+//
+//@ func New
+//@   assigns timerRunning, timerDur, timerFn
+//@   ensures [fresh] result != nil && result.delayFactor == 0
+//@   ensures [inv] len(result.delays) >= 1 && result.releaseRate >= 1
+//@   ensures [cfg] (len(delays) > 0 ==> result.delays == delays) && (releaseRate >= 1 ==> result.releaseRate == releaseRate) && result.idleTimeout == idleTimeout
+//@   ensures [idle-wired] idleTimeout > 0 ==> (result.timer != nil && timerFn[result.timer] == method(result, "Reset") && timerDur[result.timer] == idleTimeout && !timerRunning[result.timer])
+//@   ensures [idle-off] idleTimeout <= 0 ==> result.timer == nil
+//
+//@ func (*Throttler) touch
+//@   assigns timerRunning, timerDur
+//@   ensures [rearm] t.timer != nil ==> (timerRunning[t.timer] && timerDur[t.timer] == t.idleTimeout)
+//@   ensures [none] t.timer == nil ==> (timerRunning == old(timerRunning) && timerDur == old(timerDur))
+//
+//@ func (*Throttler) Signal
+//@   requires [recv] t != nil
+//@   assigns timerRunning, timerDur, delayFactor
+//@   ensures [up] t.delayFactor == min(atlock(t.delayFactor) + 1, len(t.delays) - 1)
+//@   ensures [range] 0 <= t.delayFactor && t.delayFactor < len(t.delays)
+//@   ensures [rearm] t.timer != nil ==> (timerRunning[t.timer] && timerDur[t.timer] == t.idleTimeout)
+//
+//@ func (*Throttler) Release
+//@   requires [recv] t != nil
+//@   assigns timerRunning, timerDur, delayFactor
+//@   ensures [down] t.delayFactor == max(atlock(t.delayFactor) - t.releaseRate, 0)
+//@   ensures [range] 0 <= t.delayFactor && t.delayFactor < len(t.delays)
+//@   ensures [rearm] t.timer != nil ==> (timerRunning[t.timer] && timerDur[t.timer] == t.idleTimeout)
+//
+//@ func (*Throttler) Reset
+//@   requires [recv] t != nil
+//@   assigns timerRunning, delayFactor
+//@   ensures [zero] t.delayFactor == 0
+//@   ensures [stopped] t.timer != nil ==> !timerRunning[t.timer]
+//
+//@ func (*Throttler) Delay
+//@   safe
+//@   requires [recv] t != nil
+//@   ghost var gd int = 0
+//@   ghost update before @time.After: gd = d
+//@   ensures [bound] _now - old(_now) <= max(gd, 0) + _slack
+//@   ensures [immediate] gd == 0 ==> (result == nil && _now == old(_now))
+//
+//@ func (*Throttler) GetDelay
+//@   safe
+//@   requires [recv] t != nil
+//@   ensures [cur] result == t.delays[t.delayFactor]
+//
+//@ func (*Throttler) Level
+//@   requires [recv] t != nil
+//@   ensures [cur] result == t.delayFactor && 0 <= result && result < len(t.delays)
